@@ -165,7 +165,8 @@ class DirectoryRecord:
                  'index_in_parent', 'is_rr_moved_dir', 'dr_len', 'xattr_len', 'file_flags',
                  'file_unit_size', 'interleave_gap_size', 'len_fi', 'isdir',
                  'orig_extent_loc', 'data_length', 'seqnum', 'is_root',
-                 'parent', 'rock_ridge', 'xa_record', 'file_ident')
+                 'parent', 'rock_ridge', 'xa_record', 'file_ident',
+                 'orig_record_pos')
 
     FILE_FLAG_EXISTENCE_BIT = 0
     FILE_FLAG_DIRECTORY_BIT = 1
@@ -188,6 +189,7 @@ class DirectoryRecord:
         self.rr_children = []  # type: List[DirectoryRecord]
         self.index_in_parent = -1
         self.is_rr_moved_dir = False
+        self.orig_record_pos = -1
         self.is_root = False
         self.isdir = False
         self.rock_ridge = None  # type: Optional[rockridge.RockRidge]
